@@ -83,3 +83,51 @@ def real_solver():
         yield
     finally:
         lx.linear_solve = cur
+
+
+def numeric_validate(ctx, fam, e, fn, out_sym, xin, seed=0, argname='x'):
+    """Translator validation: evaluate the interpreter's symbolic result at random rational points and compare with the real
+    library executing ``fn(op, x)`` on the same values (float64).  Only for results without definitional atoms (division,
+    ite, stub solutions, rounding, uninterpreted functions).  Returns None if not applicable, else (ok, message)."""
+    import math
+    import random
+    from fractions import Fraction
+    from .common import model_tree
+    if ctx.divs or ctx.ites or ctx.eqs or ctx.rounds or ctx.ufs:
+        return None
+    bld = Builder(fam)
+    rnd = random.Random(f'{seed}-{show(e)}')
+    elems = E.flat_elems(out_sym, ctx)
+    atoms = set()
+    for p in elems:
+        if isinstance(p, E.Cyc):
+            return None
+        atoms |= p.atoms()
+    values, model = {}, {}
+    for a in sorted(atoms):
+        if a.startswith(('C$', 'S$')):
+            continue
+        values[a] = Fraction(rnd.randint(-12, 12), rnd.choice([1, 2, 4]))
+        model[a] = str(values[a])
+    for a in sorted(atoms):
+        if a.startswith(('C$', 'S$')):
+            ang = a[2:]
+            if ang.startswith('const['):
+                th = float(Fraction(ang[6:-1]))
+            else:
+                if ang not in values:
+                    values[ang] = Fraction(rnd.randint(-12, 12), 4)
+                    model[ang] = str(values[ang])
+                th = float(values[ang])
+            values[a] = math.cos(th) if a[0] == 'C' else math.sin(th)
+    got = [float(p.subs(values)) for p in elems]
+    params = params_from_model(fam, e, model)
+    op = bld.build(e, params)
+    x = model_tree(model, argname, xin)
+    with real_solver():
+        real = fn(op, x)
+    want = [float(v) for l in jax.tree.leaves(real) for v in np.asarray(l, dtype=np.float64).reshape(-1)]
+    if len(got) != len(want):
+        return False, f'interpreter produced {len(got)} values, the library {len(want)}'
+    worst = max((abs(a - b) / max(1.0, abs(b)) for a, b in zip(got, want)), default=0.0)
+    return worst < 1e-9, f'max relative deviation interpreter vs library {worst:.2e}'
